@@ -721,6 +721,10 @@ func TestVerifWireHostile(t *testing.T) {
 func init() {
 	wsLies["i32neg"] = []byte{0xff, 0xff, 0xff, 0xff}
 	wsLies["i32max"] = []byte{0xff, 0xff, 0xff, 0x7f}
+	wsLies["i32p27"] = []byte{0, 0, 0, 0x08}
+	wsLies["i32p31"] = []byte{0, 0, 0, 0x80}
+	wsLies["w5p27"] = []byte{0xfe, 0, 0, 0, 0x08}
+	wsLies["w9p59"] = []byte{0xff, 0, 0, 0, 0, 0, 0, 0, 0x08}
 }
 
 func wsValidStorageRecord(rec string) []byte {
